@@ -58,20 +58,6 @@ example : ∃ e : Elem, Truthful e ∧ 1 ≤ e.maxN :=
 
 /-! ## One request -/
 
-theorem getInstanceData_ok_iff {e : Elem} {s s' : St} {i o : Option GridId} {w : Option WlKey}
-    {v : Inst} :
-    getInstanceData e s i o w = .ok (s', v) ↔ ∃ how, getInstanceDataHow e s i o w = .ok (s', v, how) := by
-  unfold getInstanceData
-  constructor
-  · intro h
-    split at h
-    · cases h
-    · rename_i s1 v1 how heq
-      cases h
-      exact ⟨how, heq⟩
-  · rintro ⟨how, h⟩
-    rw [h]
-
 /-- **Soundness invariant.** Whatever eviction removes, a request hands out an instance made for
 the key this request resolves to and for the current parameter version, and every cached
 `(key, instance)` pair stays sound. -/
@@ -227,6 +213,57 @@ theorem no_key_error {e : Elem} (hT : Truthful e) (hmax : 1 ≤ e.maxN) (ver : N
       simp only [specRun, List.mem_cons, not_or]
       exact ⟨by simp, ih (v + 1)⟩
 
+/-! ## Eviction order -/
+
+theorem fifo_init (ver : Nat) : Fifo (St.init ver) := FirstSorted.nil
+
+/-- Every step keeps the dict ordered oldest instance first. -/
+theorem fifo_step {e : Elem} (hT : Truthful e) (hmax : 1 ≤ e.maxN) {s : St} (hi : Inv e s)
+    (hf : Fifo s) (op : Op) : Fifo (step e s op).1 := by
+  cases op with
+  | clear => exact FirstSorted.nil
+  | set => exact FirstSorted.nil
+  | req i o w =>
+    cases h : getInstanceData e s i o w with
+    | error err => rw [step_req_err h]; exact hf
+    | ok r =>
+      obtain ⟨s', v⟩ := r
+      rw [step_req_ok h]
+      obtain ⟨how, h'⟩ := getInstanceData_ok_iff.mp h
+      exact getInstanceDataHow_fifo hi.2 hf h'
+
+theorem fifo_reachable {e : Elem} (hT : Truthful e) (hmax : 1 ≤ e.maxN) (ops : List Op) :
+    ∀ s : St, Inv e s → Fifo s → Fifo (ops.foldl (fun s op => (step e s op).1) s) := by
+  induction ops with
+  | nil => intro s _ hf; exact hf
+  | cons op ops ih =>
+    intro s hi hf
+    exact ih _ (step_req_inv hT hmax hi op).1 (fifo_step hT hmax hi hf op)
+
+/-- **The oldest instance is the one evicted**, with all of its keys and nothing else: when the
+cache is full, eviction removes exactly the entries of the live instance with the least identity
+(creation counter). -/
+theorem evicts_oldest {e : Elem} {s s' : St} (hf : Fifo s) (hfull : s.num = e.maxN)
+    (h : evict e s = .ok s') :
+    ∃ k v rest, s.cache = (k, v) :: rest ∧ (∀ p ∈ s.cache, v.id ≤ p.2.id) ∧
+      s'.cache = s.cache.filter (fun p => p.2.id != v.id) ∧ s'.num = s.num - 1 := by
+  unfold evict at h
+  rw [if_pos hfull] at h
+  cases hc : s.cache with
+  | nil => rw [hc] at h; cases h
+  | cons p rest =>
+    obtain ⟨k, v⟩ := p
+    rw [hc] at h
+    cases h
+    refine ⟨k, v, rest, rfl, ?_, ?_, rfl⟩
+    · intro p hp
+      have hmin := FirstSorted.head_le hf v.id (rest.map (·.2.id)) (by rw [hc]; rfl)
+      apply hmin
+      rw [hc]
+      exact List.mem_map.mpr ⟨p, hp, rfl⟩
+    · show rest.filter _ = ((k, v) :: rest).filter _
+      simp [List.filter_cons]
+
 /-- **A setter takes effect on the very next propagation**: after any history, a setter followed
 by a complete request hands out an instance built with the new parameter version. -/
 theorem setter_takes_effect {e : Elem} (hT : Truthful e) (hmax : 1 ≤ e.maxN) {s : St}
@@ -256,6 +293,21 @@ grid 1 (through the partial key `(None, hash(focal), wl)`), whereas a fresh elem
 for grid 2. -/
 theorem old_lens_counterexample :
     Old.hist2 = some (⟨some 1, some 9, some 5, 0⟩, ⟨some 2, some 9, some 5, 0⟩) := by decide
+
+/-- The unrepaired two-stage lookup was transparent only in part: for *forward* requests on
+elements that are grid- and wavelength-dependent and *consistent* (`get_input_grid` and
+`get_output_grid` total and mutually inverse — every shipped element except the lens propagator),
+starting from a sound cache.  Gap to the property: backward and both-grid requests, and
+inconsistent elements (for which `old_lens_counterexample` shows it false). -/
+theorem old_forward_transparent_partial (e : Old.Elem) (hc : Old.Consistent e) (s s' : Old.St)
+    (hs : Old.Sound e s) (a : GridId) (k : WlKey) (v : Old.Inst)
+    (h : Old.getInstanceData e s (some a) none (some k) = some (s', v)) :
+    v = Old.fresh e s.ver (some a) none (some k) ∧ Old.Sound e s' :=
+  Old.forward_transparent e hc s s' hs a k v h
+
+example : Old.Consistent ⟨true, true, 11, fun g => some g, fun g => some g⟩ :=
+  ⟨rfl, rfl, fun a b h => by simp at h; simp [h], fun a b h => by simp at h; simp [h],
+    fun a => ⟨a, rfl⟩, fun b => ⟨b, rfl⟩⟩
 
 /-- The repaired lookup answers the same history correctly. -/
 theorem lens_history_repaired :
@@ -294,6 +346,9 @@ theorem memo_get_transparent {τ α} [DecidableEq τ] (compute : τ → α) (m :
       simp at h
       obtain ⟨rfl, rfl⟩ := h
       rfl
+
+example : MemoOk (fun (b : Bool) => if b then 64 else 128) ⟨none⟩ := by
+  intro t v h; cases h
 
 /-- Histories of memo-cell reads (alternating dtypes / tensor shapes, with `_remove_matrices()` in
 between or not): every read returns the fresh computation. -/
